@@ -4,7 +4,8 @@ open Pyemv Pyemv.Gen
 
 theorem tools_xor (a b : Bytes) : Gen.tools.xor a b = .ok (Pyemv.xor a b) := by
   unfold Gen.tools.xor toBytesLE Pyemv.xor
-  simp only [xor_fits a b, if_true, bind, Except.bind, pure, Except.pure]
+  try simp only [bind_pure]      -- `do let v ← e; pure v` is `e` (single-exit rewrites)
+  simp only [xor_fits a b, if_true, bind, Except.bind, pure, Except.pure, except_match_eta]
 
 theorem xorBE_fits (a b : Bytes) : fromBE a ^^^ fromBE (b.take a.length) < 256 ^ a.length := by
   rw [pow256]
@@ -16,6 +17,7 @@ theorem xorBE_fits (a b : Bytes) : fromBE a ^^^ fromBE (b.take a.length) < 256 ^
 /-- the same source as a host with `sys.byteorder == "big"` evaluates it -/
 theorem tools_xor_bigendian (a b : Bytes) : Gen.tools.xor_bigendian a b = .ok (Pyemv.xorBigEndian a b) := by
   unfold Gen.tools.xor_bigendian toBytesBE Pyemv.xorBigEndian
-  simp only [xorBE_fits a b, if_true, bind, Except.bind, pure, Except.pure]
+  try simp only [bind_pure]      -- `do let v ← e; pure v` is `e` (single-exit rewrites)
+  simp only [xorBE_fits a b, if_true, bind, Except.bind, pure, Except.pure, except_match_eta]
 
 end Pyemv.ModRefines
